@@ -424,6 +424,11 @@ def closed_subterms(t, path=(), out=None, depth=0):
         opn = True
     if not opn:
         out.append((path, t))
+    try:
+        if t.is_comb() and t.is_number():
+            return out                  # numerals are literals: never edit inside `of_nat (bit0 ...)`
+    except Exception:  # noqa
+        pass
     if t.is_comb():
         closed_subterms(t.fun, path + ("f",), out, depth + 1)
         closed_subterms(t.arg, path + ("a",), out, depth + 1)
@@ -445,7 +450,21 @@ def replace_at(t, path, new):
 
 def map_types(t, f):
     """Rebuild t with every type T replaced by f(T)."""
-    from kernel.term import Comb, Abs, Var, SVar, Const
+    from kernel.term import Comb, Abs, Var, SVar, Const, Number
+    try:
+        if t.is_number() and (t.is_comb() or t.is_const()):
+            T = t.get_type()
+            T2 = f(T)
+            if T2 == T:
+                return t
+            v = t.dest_number()
+            if T2.name == "nat" and (v < 0 or v != int(v)):
+                return t
+            if T2.name == "int" and v != int(v):
+                return t
+            return Number(T2, v)            # numerals are rebuilt at the new type, not edited inside
+    except Exception:  # noqa
+        pass
     if t.is_comb():
         return Comb(map_types(t.fun, f), map_types(t.arg, f))
     if t.is_abs():
@@ -469,9 +488,13 @@ def swap_tconst(T, a, b):
 
 def well_typed(t, want_bool=False):
     from kernel.type import BoolType
+    from kernel import theory
     try:
         T = t.checked_get_type()
-        return (T == BoolType) if want_bool else True
+        if want_bool and T != BoolType:
+            return False
+        theory.thy.check_term(t)            # constants at instances of their declared types only
+        return True
     except Exception:  # noqa
         return False
 
